@@ -43,7 +43,8 @@ LEVEL_TEXT = (
     "returns what its last statement returned; (V7) a call pairs parameters and arguments by position and returns the body of the "
     "function it names; (V8) both copies of the array-read mux tree choose the higher-index element when the index bit is set; (V9) "
     "write-back through tuple / struct accessors uses the offset and width that were used for reading. Arithmetic is C03, panics "
-    "C02, variable merging C14, optimisations C04, the register form C10.")
+    "C02, variable merging C14, optimisations C04, the register form C10."
+    " Cross-references V16 (accepted matches are exhaustive: C17 T14 / T15) and V17 (first matching arm wins: C08 M1).")
 LEVEL_NOTE = "Trusted: rustc MIR; push_mux(s, a, b) selects a when s is set (assumption shared with C02 / C14)."
 EXPLANATION = ("Functions analysed: TypedExpr::compile pruned to If, Op(ShortCircuitAnd/Or), TupleAccess, StructAccess, ArrayLiteral, TupleLiteral, "
                "StructLiteral, ArrayRepeatLiteral(Const), EnumLiteral, FnCall, ArrayAccess; TypedStmt::compile pruned to ForEachLoop and VarAssign; compile_block.")
